@@ -1,6 +1,7 @@
 ----------------------------- MODULE MCScopes -----------------------------
 EXTENDS Scopes
-NameSet == {"sin", "cos"}
+NameSet == {"sin", "cos", "alog", "log"}
 OneName == {"sin"}
+Specific == {"alog", "log"}
 HowAll == {"decl", "only", "ren", "wild"}
 =============================================================================
